@@ -1,13 +1,14 @@
 CONSTANTS
   Dev = {}
   Mode = "conn"
-  NConn = 2
+  NConn = 3
   MaxReq = 3
   QCapG = 1
   Kinds = {"single", "stream2", "fail", "txn"}
   MaxOps = 14
   MaxCredit = 5
   MaxTick = 3
+  Limit = 2
 SPECIFICATION Spec
 INVARIANT Emit
 CHECK_DEADLOCK FALSE
